@@ -34,6 +34,19 @@ class TaskError(Exception):
     pass
 
 
+class MultiArgError(Exception):
+    """Same shape as mesh.py's MaxIterException: several required constructor arguments,
+    one message forwarded -- pickles, but cannot be rebuilt by pickle.loads."""
+
+    def __init__(self, index, extra):
+        super().__init__("task %d" % index)
+        self.index = index
+
+
+class WouldBlock(Exception):
+    """The caller would wait on an empty queue forever."""
+
+
 def choose(ctx, name, n):
     """Arbitrary integer in [0, n): symbolic, enumerated by branching."""
     if n <= 0:
@@ -56,25 +69,52 @@ class Queue:
         self.puts = []
         self.gets = 0
         self.on_empty = on_empty
+        self.transport = False
+        self.lost = []
 
     def put(self, item):
-        self.pending.append(item)
+        # items travel pickled (as in multiprocessing): an item that cannot be pickled is
+        # lost in the feeder thread; symbolic task results stand for picklable values
         self.puts.append(item)
+        if self.transport and not _has_sym(item):
+            import pickle
+
+            try:
+                item = ("pickled", pickle.dumps(item))
+            except Exception:
+                self.lost.append(item)
+                return
+        self.pending.append(item)
 
     def get(self):
         if not self.pending and self.on_empty is not None:
             self.on_empty(self)
         if not self.pending:
-            raise SymbolicError("get() on an empty queue would block forever")
+            raise WouldBlock("get() on an empty %s would block forever" % self.name)
         k = choose(self.ctx, "%s_choice_%d" % (self.name, self.gets), len(self.pending))
         self.gets += 1
-        return self.pending.pop(k)
+        item = self.pending.pop(k)
+        if isinstance(item, tuple) and len(item) == 2 and item[0] == "pickled":
+            import pickle
+
+            item = pickle.loads(item[1])  # may raise in the caller, as it would natively
+        return item
 
     def empty(self):
         return not self.pending
 
 
-def make_call_run(n, nworkers, failing=None):
+def _has_sym(x):
+    if isinstance(x, Sym):
+        return True
+    if isinstance(x, (tuple, list)):
+        return any(_has_sym(y) for y in x)
+    if isinstance(x, dict):
+        return any(_has_sym(y) for y in x.values())
+    return callable(x) and not isinstance(x, type)
+
+
+def make_call_run(n, nworkers, failing=None, exc_type=None):
     """__call__ with n tasks; workers are run *through the real worker_run* whenever the
     caller would block on an empty result queue (a legal schedule; the order in which
     answers come back is then chosen arbitrarily by result_queue.get)."""
@@ -90,13 +130,14 @@ def make_call_run(n, nworkers, failing=None):
             calls.append((a, equilibrium, psi, f_R, f_Z, extra))
             i = int(a[1:])
             if failing is not None and i in failing:
-                raise TaskError("task %d" % i)
+                raise (TaskError("task %d" % i) if exc_type is None else exc_type(i, "x"))
             return vals[i]
 
         eq = types.SimpleNamespace(psi="PSI", f_R="FR", f_Z="FZ")
         pm = object.__new__(PM.ParallelMap)
         pm.workers = [types.SimpleNamespace(terminate=lambda: None, join=lambda: None) for _ in range(nworkers)]  # not None: parallel branch
         rq = Queue(ctx, "rq")
+        rq.transport = True  # answers cross the process boundary pickled
         tq = Queue(ctx, "tq")
 
         def run_workers(_):
@@ -106,7 +147,7 @@ def make_call_run(n, nworkers, failing=None):
 
             tq.on_empty = stop
             try:
-                with _dill_identity(PM):
+                with _dill_identity(PM, eq):
                     PM.ParallelMap.worker_run(tq, rq, eq)
             except StopWorker:
                 pass
@@ -118,16 +159,21 @@ def make_call_run(n, nworkers, failing=None):
         res = None
         try:
             res = PM.ParallelMap.__call__(pm, function, iter(args_list), extra="kw")
-        except TaskError as e:
+        except (TaskError, MultiArgError, RuntimeError) as e:
+            exc = e
+        except WouldBlock as e:
+            exc = e
+        except Exception as e:  # e.g. an answer that cannot be unpickled in the caller
             exc = e
         with spec_mode():
+            ctx.oblige(TRUE(not isinstance(exc, WouldBlock) and not rq.lost), "liveness: the caller never waits on an answer that cannot arrive")
             ctx.oblige(TRUE([p[0] for p in tq.puts] == list(range(n)) and all(p[1] is function and p[2] == args_list[p[0]] and p[3] == {"extra": "kw"} for p in tq.puts)), "every task is put exactly once, tagged with its index")
             ctx.oblige(TRUE(len(rq.puts) == n), "liveness: the workers answer every task (|answers| = n), also when tasks fail")
             ctx.oblige(TRUE(sorted(p[0] for p in rq.puts) == list(range(n))), "each index answered exactly once")
             ctx.oblige(TRUE(tq.empty() and rq.empty()), "queues are clean afterwards (no stale answer reaches the next call)")
             ctx.oblige(TRUE(all(c[1] is eq and c[2:5] == ("PSI", "FR", "FZ") and c[5] == "kw" for c in calls)), "workers call function(*args, equilibrium, psi, f_R, f_Z, **kwargs)")
             if failing:
-                ctx.oblige(TRUE(exc is not None and str(exc) == "task %d" % min(failing)), "a failing task raises in the caller: the error of the first failed task, as a serial run")
+                ctx.oblige(TRUE(exc is not None and ("task %d" % min(failing)) in str(exc) and not isinstance(exc, (WouldBlock, TypeError))), "a failing task raises in the caller: the error of the first failed task, as a serial run")
             else:
                 ctx.oblige(TRUE(exc is None and isinstance(res, list) and len(res) == n), "returns a list of n results")
                 if res is not None:
@@ -139,14 +185,16 @@ def make_call_run(n, nworkers, failing=None):
 
 
 class _dill_identity:
-    """dill.loads/dumps on the (already live) equilibrium object: identity (assumed round trip)."""
+    """dill.loads/dumps of the (already live) equilibrium object: identity (assumed round
+    trip); everything else goes through the real dill."""
 
-    def __init__(self, PM):
-        self.PM = PM
+    def __init__(self, PM, eq):
+        self.PM, self.eq = PM, eq
 
     def __enter__(self):
-        self.saved = self.PM.dill
-        self.PM.dill = types.SimpleNamespace(loads=lambda x: x, dumps=lambda x: x)
+        self.saved = real = self.PM.dill
+        eq = self.eq
+        self.PM.dill = types.SimpleNamespace(loads=lambda x: x if x is eq else real.loads(x), dumps=lambda x: x if x is eq else real.dumps(x))
 
     def __exit__(self, *a):
         self.PM.dill = self.saved
@@ -223,6 +271,8 @@ def build(S):
     for n, failing in ((1, {0}), (2, {0}), (2, {1}), (3, {1}), (3, {0, 2}), (3, {2})):
         S.contract("__call__[parallel,n=%d,failing=%s]" % (n, sorted(failing)), FN_WORK, make_call_run(n, 2, failing), shape="n=%d" % n, max_paths=100000)
         S.contract("__call__[serial,n=%d,failing=%s]" % (n, sorted(failing)), FN_CALL, make_serial_run(n, failing), shape="n=%d" % n)
+    for n, failing in ((2, {1}), (3, {0})):
+        S.contract("__call__[parallel,n=%d,failing=%s,unrebuildable exception]" % (n, sorted(failing)), FN_WORK, make_call_run(n, 2, failing, exc_type=MultiArgError), shape="n=%d" % n, max_paths=100000)
     S.contract("call-sites[frame]", "hypnotoad.core.mesh:MeshRegion", run_frame, shape="-")
 
 
